@@ -31,30 +31,38 @@ func accelFamilies(thorough bool) (jobs []job) {
 		jobs = append(jobs, job{fam: fam, pats: pats, opts: o, prof: pr, maxL: L})
 	}
 	for _, o := range []optSet{"", "G", "R"} {
+		L := 4
+		if o == "" {
+			L = 5
+		}
 		add("CORE<=4", core4, o, profP0, 4)
-		add("SEQ k<=2 anchored", seq2, o, profP0, 5)
-		add("ALT", altL, o, profP0, 5)
-		add("LAND", land, o, profP0, 6)
+		add("SEQ k<=2 anchored", seq2, o, profP0, L)
+		add("ALT", altL, o, profP0, L)
+		add("LAND", land, o, profP0, 5)
 		add("ANCH<=4", anch, o, anchProf, 4)
 		add("ANCH<=4", anch, o+"m", anchProf, 4)
 	}
-	add("SEQ k<=3", seq3, "", profP0, 5)
-	add("SEQ k<=3", seq3, "G", profP0, 4)
-	add("LOOP", loopF, "", profP0, 5)
+	add("SEQ k<=3", seq3, "", profP0, 4)
+	add("LOOP", loopF, "", profP0, 4)
 	add("LOOK", lookF, "", profP0, 4)
-	add("LOOK", lookF, "G", profP0, 4)
 	add("ALT", altL, "i", profP0i, 4)
 	add("ALT", altL, "iG", profP0i, 4)
 	add("SEQ k<=2 anchored", seq2, "i", profP0i, 4)
 	add("SEQ k<=2 anchored", seq2, "m", profP6, 4)
+	add("CORE<=4", core4, "", profP1, 4)
 	for _, pr := range []profile{profP1, profP2, profP3} {
-		add("CORE<=4", core4, "", pr, 4)
 		add("SEQ k<=2 anchored", seq2, "", pr, 4)
 		add("ALT", altL, "G", pr, 4)
 	}
 	add("CORPUS", corpus, "", profCorpus, 3)
 	add("CORPUS", corpus, "G", profCorpus, 3)
 	if thorough {
+		add("SEQ k<=3", seq3, "G", profP0, 4)
+		add("LOOK", lookF, "G", profP0, 4)
+		add("CORE<=4", core4, "", profP2, 4)
+		add("CORE<=4", core4, "", profP3, 4)
+		add("LAND", land, "", profP0, 6)
+		add("LAND", land, "G", profP0, 6)
 		core5 := coreFamily("CORE", grammarCore(), 5)
 		add("CORE<=5", core5, "", profP0, 4)
 		add("CORE<=5", core5, "G", profP0, 4)
@@ -65,6 +73,7 @@ func accelFamilies(thorough bool) (jobs []job) {
 		add("SEQ k<=3", seq3, "", profP0, 6)
 		add("ALT full", altFamily(true), "", profP0, 5)
 		add("ALT full", altFamily(true), "G", profP0, 5)
+		add("LOOP", loopF, "", profP0, 5)
 		add("LOOP", loopF, "G", profP0, 5)
 		add("LOOP", loopF, "R", profP0, 5)
 		add("LOOK", lookF, "R", profP0, 4)
@@ -134,7 +143,7 @@ func runC03(c *Ctx) {
 	if thorough {
 		c.SetBudget(40 * time.Minute)
 	} else {
-		c.SetBudget(4 * time.Minute)
+		c.SetBudget(5 * time.Minute)
 	}
 	c.Rule = "every pattern of each listed family x option set (G = code-gen analysis, R = RightToLeft) x every input up to the length bound over the profile alphabet x every start offset: FindRunesMatchStartingAt, FindStringMatchStartingAt (byte offset of the same rune offset), and at the whole-input offset MatchRunes/MatchString/FindStringMatch, compared (match, index, length, all captures) with the verif-only naive scan of the same compiled program (attempt at every position in scan order, no prefix filter, no candidate search, no length cut-off, bump-along ignored). Non-trivial = points at which the candidate search moved the scan position or rejected the input."
 	c.Assume("hook VerifNaiveScan (verif_hooks.go) runs the same compiled program through the same interpreter, so the check isolates the acceleration layer")
